@@ -1,0 +1,15 @@
+//go:build verif
+
+package object
+
+// VerifMapPairs returns the stored key/value pairs of a map in storage order
+// (key at even positions, its value right after). Read-only projection used by
+// the verification harness; not compiled without the `verif` build tag.
+func VerifMapPairs(m Map) []Object {
+	els := m.mapElements()
+	res := make([]Object, 0, 2*len(els))
+	for _, kv := range els {
+		res = append(res, kv.Key, kv.Value)
+	}
+	return res
+}
